@@ -489,7 +489,7 @@ def selftest_seeded(ids):
         if meta.get("expect") == "quiet":
             # a behaviour-preserving change: every registered check must stay silent
             r = sh([os.path.join(HERE, "checks", "mutcheck.sh"), os.path.join(root, sid, "patch.diff")] + sorted(JOBS), timeout=7200)
-            noisy = [l for l in r.stdout.splitlines() if l.startswith(("VIOLATION", "MACHINERY", "KNOWN-FINDING"))]
+            noisy = [l for l in r.stdout.splitlines() if l.startswith(("VIOLATION", "MACHINERY"))]      # a listed KNOWN-FINDING is what the unchanged tree prints too
             print("seeded/%-10s all %d checks: %s" % (sid, len(JOBS), "quiet" if not noisy and r.stdout.count("tier=") == len(JOBS) else "NOT QUIET / INCOMPLETE"))
             for l in noisy: print("   ", l[:220])
             if noisy or r.stdout.count("tier=") != len(JOBS): bad += 1
